@@ -398,26 +398,96 @@ func c20OutputFiles(c *Ctx) {
 // every path (from JSON text, or from the structured form marshalled and decoded again): the subprocess's messages
 // are JSON-decoded values, and the matcher does not find a YAML pattern's int among their float64s.
 func c19Canonical(c *Ctx, F *ssa.Function, matchCall *ssa.Call) {
+	// provablyNonNil: the block is dominated by the true edge of `v != nil` / the false edge of `v == nil`
+	provablyNonNil := func(v ssa.Value, at *ssa.BasicBlock) bool {
+		for _, f := range flow.FactsAt(at) {
+			b, ok := f.Cond.(*ssa.BinOp)
+			if !ok || !(b.X == v && ssau.IsNilConst(b.Y) || b.Y == v && ssau.IsNilConst(b.X)) {
+				continue
+			}
+			if (b.Op == token.NEQ && f.True) || (b.Op == token.EQL && !f.True) {
+				return true
+			}
+		}
+		return false
+	}
+	// decodeBlocks: the blocks of fn in which the variable `cell` (a local variable's cell, or a pointer parameter) is
+	// filled by json.Unmarshal — directly, or by a helper of the package that is handed the variable's address and
+	// decodes into it on every return that does not report an error (then the call's error has to be nil at `at`)
+	var decodeBlocks func(fn *ssa.Function, cell ssa.Value, at *ssa.BasicBlock, depth int) map[*ssa.BasicBlock]bool
+	// decodesParam: on every return of h that is not provably an error return, parameter k has been decoded into
+	decodesParam := func(h *ssa.Function, k int, depth int) (ok, errorReturns bool) {
+		ei := errResultIndex(h)
+		if h.Blocks == nil || k >= len(h.Params) || depth > 2 {
+			return false, false
+		}
+		n := 0
+		for _, b := range h.Blocks {
+			ret, isRet := b.Instrs[len(b.Instrs)-1].(*ssa.Return)
+			if !isRet {
+				continue
+			}
+			n++
+			dec := decodeBlocks(h, h.Params[k], b, depth+1)
+			if len(dec) > 0 && (dec[b] || dec[h.Blocks[0]] || !flow.Reachable(h.Blocks[0], b, dec)) {
+				continue
+			}
+			if ei >= 0 && ei < len(ret.Results) && provablyNonNil(ret.Results[ei], b) {
+				errorReturns = true
+				continue
+			}
+			return false, false
+		}
+		return n > 0, errorReturns
+	}
+	decodeBlocks = func(fn *ssa.Function, cell ssa.Value, at *ssa.BasicBlock, depth int) map[*ssa.BasicBlock]bool {
+		dec := map[*ssa.BasicBlock]bool{}
+		ssau.Instrs(fn, func(in ssa.Instruction) {
+			cl, ok := in.(*ssa.Call)
+			if !ok {
+				return
+			}
+			if ssau.CalleeName(cl) == "encoding/json.Unmarshal" && len(cl.Common().Args) >= 2 {
+				dst := cl.Common().Args[1]
+				if mi, isMI := dst.(*ssa.MakeInterface); isMI {
+					dst = mi.X
+				}
+				if dst == cell {
+					dec[cl.Block()] = true
+				}
+				return
+			}
+			h := cl.Common().StaticCallee()
+			if h == nil || h.Blocks == nil || prog.PkgOf(h) != prog.PkgOf(fn) {
+				return
+			}
+			for k, a := range cl.Common().Args {
+				if a != cell {
+					continue
+				}
+				if ok, errs := decodesParam(h, k, depth); ok {
+					// the helper may come back with an error and the variable as it was: only where the caller
+					// knows that it did not
+					var ev ssa.Value = cl
+					if h.Signature.Results().Len() > 1 {
+						ev = callResults(cl)[errResultIndex(h)]
+					}
+					if errs && (ev == nil || !provablyNil(ev, at)) {
+						continue
+					}
+					dec[cl.Block()] = true
+				}
+			}
+		})
+		return dec
+	}
 	// decodedAt: v is (a load of) a variable that a json.Unmarshal has filled on every way to block `at` of fn
 	decodedAt := func(fn *ssa.Function, v ssa.Value, at *ssa.BasicBlock) bool {
 		cell := cellOf(v)
 		if cell == nil {
 			return false
 		}
-		dec := map[*ssa.BasicBlock]bool{}
-		ssau.Instrs(fn, func(in ssa.Instruction) {
-			cl, ok := in.(*ssa.Call)
-			if !ok || ssau.CalleeName(cl) != "encoding/json.Unmarshal" || len(cl.Common().Args) < 2 {
-				return
-			}
-			dst := cl.Common().Args[1]
-			if mi, isMI := dst.(*ssa.MakeInterface); isMI {
-				dst = mi.X
-			}
-			if dst == cell {
-				dec[cl.Block()] = true
-			}
-		})
+		dec := decodeBlocks(fn, cell, at, 0)
 		if len(dec) == 0 {
 			return false
 		}
